@@ -35,4 +35,4 @@ def run(ctx, rnd, record, verdict):
         # a few cuts inside the preamble (definitions left open)
         for cut in (pre - 2, pre - 40, pre // 2, 30):
             record(ctx, src[:cut], kw, ml, None, 'prefix', verdict(src[:cut], kw, ml, None))
-    hyp_run(ctx, small, one, ctx.n(320, 20000), seed=ctx.shard_seed + 300)
+    hyp_run(ctx, small, one, ctx.n(320, 6666), seed=ctx.shard_seed + 300)
